@@ -37,9 +37,18 @@ func VerifC16_Piles() {
 		var fs [2]*Feature
 		for j := 0; j < 2; j++ {
 			nm := string(rune('0'+i)) + string(rune('a'+j))
-			l := verifChoice("loc"+nm, nloc)
-			s := verifInt("s"+nm, 0, maxs)
-			e := s + verifInt("l"+nm, verifParam("minlen"), maxl)
+			var l, s, e int
+			if i < verifParam("concrete") {
+				// the first pairs are fixed (a scrambled but concrete layout); only the remaining
+				// pairs are symbolic, which allows more pairs per instance
+				l = (i + j) % nloc
+				s = (i*3 + j*5) % (maxs + 1)
+				e = s + 1 + (i+2*j)%maxl
+			} else {
+				l = verifChoice("loc"+nm, nloc)
+				s = verifInt("s"+nm, 0, maxs)
+				e = s + verifInt("l"+nm, verifParam("minlen"), maxl)
+			}
 			fs[j] = &Feature{ID: "f" + nm, From: s, To: e, Loc: locs[l]}
 			specs[i][j] = verifSpec{l, s, e, fs[j]}
 		}
@@ -47,7 +56,16 @@ func VerifC16_Piles() {
 		fs[0].Pair, fs[1].Pair = pairs[i], pairs[i]
 	}
 	p := NewPiler(0)
-	order := verifPerm(np)
+	var order []int
+	if verifParam("concrete") > 0 {
+		// with fixed pairs only the position of the symbolic pair(s) in the insertion order varies
+		r := verifChoice("rot", np)
+		for i := 0; i < np; i++ {
+			order = append(order, (i+r)%np)
+		}
+	} else {
+		order = verifPerm(np)
+	}
 	var added []int
 	for _, i := range order {
 		// duplicate iff an added pair has the same two (location,start,end) in either orientation
